@@ -89,6 +89,8 @@ def _has_uf(t):
         d = t.decl()
         if d.kind() == z3.Z3_OP_UNINTERPRETED and d.arity() > 0 and not d.name().startswith(("bits", "unbits")):
             v = True
+        elif d.kind() == z3.Z3_OP_UNINTERPRETED and d.arity() == 0 and d.name().startswith("n_empty"):
+            v = True        # uninitialised memory (np.empty): any value
         else:
             for c in t.children():
                 if _has_uf(c):
